@@ -73,19 +73,33 @@ type verifC06BadEncoder struct{}
 func (verifC06BadEncoder) encode(pe packetEncoder) error { return errors.New("verif: drop connection") }
 func (verifC06BadEncoder) headerVersion() int16            { return 0 }
 
+// VerifC06NoAnswer is returned by onCommit to make the broker swallow the request (the client's read times out).
+var VerifC06NoAnswer = &OffsetCommitResponse{Version: -77}
+
 // VerifC06Install makes the mock broker a scripted group coordinator. onCommit returning nil makes the
-// broker drop the connection without answering (CommitOffset fails on the client side).
-func VerifC06Install(mb *MockBroker, onCommit func(*OffsetCommitRequest) *OffsetCommitResponse,
+// broker drop the connection without answering (CommitOffset fails on the client side); returning
+// VerifC06NoAnswer makes it keep the connection and never answer. Metadata and FindCoordinator requests
+// (sent by a real sarama client) are answered with this broker as the only broker and the coordinator.
+func VerifC06Install(mb *MockBroker, t TestReporter, onCommit func(*OffsetCommitRequest) *OffsetCommitResponse,
 	onFetch func(*OffsetFetchRequest) *OffsetFetchResponse) {
+	meta := NewMockMetadataResponse(t).SetBroker(mb.Addr(), mb.BrokerID())
 	mb.setHandler(func(req *request) encoderWithHeader {
 		switch body := req.body.(type) {
 		case *OffsetCommitRequest:
-			if r := onCommit(body); r != nil {
+			r := onCommit(body)
+			if r == VerifC06NoAnswer {
+				return nil
+			}
+			if r != nil {
 				return r
 			}
 			return verifC06BadEncoder{}
 		case *OffsetFetchRequest:
 			return onFetch(body)
+		case *MetadataRequest:
+			return meta.For(body)
+		case *FindCoordinatorRequest:
+			return NewMockFindCoordinatorResponse(t).SetCoordinator(CoordinatorGroup, body.CoordinatorKey, mb).For(body)
 		}
 		return nil
 	})
